@@ -141,7 +141,7 @@ Lemma generic_lookahead_bounded_l :
 Proof. split; reflexivity. Qed.
 
 (* hypotheses of the round trip are satisfiable, and the fuel of [parse] is enough, on a stream
-   that exercises every construct (identifiers of all four classes, method calls, sizeof, casts) *)
+   that exercises every construct (identifiers of all four classes, method calls, sizeof, casts, an array literal) *)
 Definition sample : expr :=
   Asg (Some Add) (Idx (Var ia) (Bin Add (Var iN) (Num 1)))
       (Tern (Bin Or (Bin LeO (Par (Var iN)) (Num 3)) (Un Not (Var iT)))
@@ -150,7 +150,7 @@ Definition sample : expr :=
             (Tern (Bin EqO (Var ib) (Bin GeO (Par (Bin Add (Var it_) (Num 0))) (Var id_)))
                   (Mem (Arrow (Var 40) 44) 49)
                   (Bin Sub (Cast [TKw 0; TOp Mul] (MCall false (Par (Var iN)) 52 [Var iT; Par (Var iN)]))
-                           (Pre false (Par (Idx (Var ia) (Num 0))))))).
+                           (Pre false (Par (Idx (ArrLit [Var ia; Bin Add (Var iN) (Num 2)]) (Num 0))))))).
 
 Lemma sample_roundtrip_l :
   wf sample = true /\ folb pinned_table 0 [TRP; TSemi] = true /\
@@ -202,11 +202,13 @@ Definition structure_ok (shape : list (string * string * string * string)) (tern
    name; the spelling is tested (std::isupper) in exactly two places, the sizeof operand and `Name<`
    ([sizeof_type_start], [name_skip]); a cast operand is parsed by parseUnary; a cast type starts with
    one of the ten keyword types (TOK_CHAR, the char literal, is in the list of the code but parseType
-   rejects it) or an identifier; parsePostfix tests ( [ . -> and ++ (with --) *)
-Definition primary_ok (maps : list string) (assigns isupper : nat) (operand : string) (starts postfix : list string) : bool :=
+   rejects it) or an identifier; parsePostfix tests ( [ . -> and ++ (with --); the keyword prefix
+   operators await and try / checked take a parseUnary operand *)
+Definition primary_ok (maps : list string) (assigns isupper : nat) (operand : string) (starts postfix kwcalls : list string) : bool :=
   list_string_eqb maps ["enum_definitions_"; "interface_definitions_"; "struct_definitions_"; "typedef_map_";
                         "union_definitions_"] &&
   (assigns =? 3)%nat && (isupper =? 2)%nat && String.eqb operand "parseUnary" &&
   list_string_eqb starts ["TOK_BOOL"; "TOK_CHAR"; "TOK_CHAR_TYPE"; "TOK_DOUBLE"; "TOK_FLOAT"; "TOK_IDENTIFIER"; "TOK_INT";
                           "TOK_LONG"; "TOK_SHORT"; "TOK_STRING_TYPE"; "TOK_TINY"; "TOK_VOID"] &&
-  list_string_eqb postfix ["TOK_ARROW"; "TOK_DOT"; "TOK_INCR"; "TOK_LBRACKET"; "TOK_LPAREN"].
+  list_string_eqb postfix ["TOK_ARROW"; "TOK_DOT"; "TOK_INCR"; "TOK_LBRACKET"; "TOK_LPAREN"] &&
+  list_string_eqb kwcalls ["parseUnary"; "parseUnary"].
